@@ -27,20 +27,33 @@ def force (tab : Table) : Nat → LPkt → Option Pkt
   | 0, lp => if lp.next.isNone then some lp.p else none
   | n + 1, lp => if lp.next.isNone then some lp.p else force tab n (step tab true lp).1
 
-/-- Discipline of one decoder behaviour on an input of `len` bytes (`la` = the layer added last by
-    this behaviour so far): builder calls, then `return nil/err`, a panic, or
-    `return p.NextDecoder(d)` — the latter only after an AddLayer of its own whose payload is
-    strictly shorter than the input, or empty (progress). -/
-def DBeh (len : Nat) : Option Layer → Beh → Prop
+/-- A termination measure on (decoder, input length).  The plain "progress" discipline is
+    `fun _ len => len`; a decoder that may hand its whole input on to a *different* decoder (a
+    zero-length header, e.g. RadioTap with Length 0 → Dot11) is covered by ranking the decoders,
+    e.g. `2*len+1` for it and `2*len` for the others. -/
+abbrev Measure := DecId → Nat → Nat
+
+/-- Discipline of one decoder behaviour (`m` = measure of this invocation, `la` = the layer added
+    last by this behaviour so far): builder calls, then `return nil/err`, a panic, or
+    `return p.NextDecoder(d')` — the latter only after an AddLayer of its own, and such that the
+    callee on that layer's payload has a strictly smaller measure, or the payload is empty. -/
+def DBeh (m : Nat) (μ : Measure) : Option Layer → Beh → Prop
   | _, .ret _ => True
   | _, .panic => True
-  | _, .act (.add l) k => DBeh len (some l) k
-  | la, .act _ k => DBeh len la k
+  | _, .act (.add l) k => DBeh m μ (some l) k
+  | la, .act _ k => DBeh m μ la k
   | _, .next none _ kErr => kErr = .ret true
-  | la, .next (some _) kOk kErr => kOk = .ret false ∧ kErr = .ret true ∧ ∃ l, la = some l ∧ (l.payLen < len ∨ l.payLen = 0)
+  | la, .next (some d') kOk kErr => kOk = .ret false ∧ kErr = .ret true ∧ ∃ l, la = some l ∧ (μ d' l.payLen < m ∨ l.payLen = 0)
 
-/-- The discipline D on decoder tables (C03). -/
-def D (tab : Table) : Prop := ∀ d data off len, DBeh len none (tab d data off len)
+/-- The discipline on decoder tables (C03), relative to a termination measure. -/
+def DM (μ : Measure) (tab : Table) : Prop := ∀ d data off len, DBeh (μ d len) μ none (tab d data off len)
+
+/-- The progress measure: the input length. -/
+def lenMeasure : Measure := fun _ len => len
+
+/-- The discipline D with plain progress: the payload handed on is strictly shorter than the
+    input, or empty. -/
+abbrev D (tab : Table) : Prop := DM lenMeasure tab
 
 /-- All builder calls occurring anywhere in a behaviour tree. -/
 def Beh.acts : Beh → List Act
@@ -399,12 +412,12 @@ theorem applyAct_last_of_not_add (a : Act) (p : Pkt) (h : ∀ l, a ≠ .add l) :
     without a continuation (same packet, same outcome), or it ends in `return p.NextDecoder(d')`
     after adding a layer `l` with a strictly shorter payload — the lazy run stores `d'`, the eager
     run calls it at once on `l`'s payload (or returns nil if that is empty). -/
-theorem DBeh_sim (run : DecId → Nat → Nat → Pkt → Option (Pkt × Out)) (len : Nat) (b : Beh) :
+theorem DBeh_sim (run : DecId → Nat → Nat → Pkt → Option (Pkt × Out)) (m : Nat) (μ : Measure) (b : Beh) :
     ∀ (la : Option Layer) (p : Pkt) (nx : Option DecId),
-    DBeh len la b → (∀ l, la = some l → p.last = some l) →
+    DBeh m μ la b → (∀ l, la = some l → p.last = some l) →
     (∃ p2 out, lazyBeh b ⟨p, nx⟩ = (⟨p2, nx⟩, out) ∧ eagerBeh run b p = some (p2, out)
         ∧ (out = .ret false ∨ out = .ret true ∨ out = .panic))
-    ∨ (∃ p2 d' l, lazyBeh b ⟨p, nx⟩ = (⟨p2, some d'⟩, .ret false) ∧ p2.last = some l ∧ (l.payLen < len ∨ l.payLen = 0)
+    ∨ (∃ p2 d' l, lazyBeh b ⟨p, nx⟩ = (⟨p2, some d'⟩, .ret false) ∧ p2.last = some l ∧ (μ d' l.payLen < m ∨ l.payLen = 0)
         ∧ eagerBeh run b p = if l.payLen = 0 then some (p2, .ret false) else run d' l.poff l.payLen p2) := by
   induction b with
   | ret e =>
@@ -445,7 +458,7 @@ theorem DBeh_sim (run : DecId → Nat → Nat → Pkt → Option (Pkt × Out)) (
       subst hk
       exact Or.inl ⟨p, .ret true, rfl, rfl, by simp⟩
     | some d' =>
-      obtain ⟨hk1, hk2, l, hl, hlt⟩ : kOk = .ret false ∧ kErr = .ret true ∧ ∃ l, la = some l ∧ (l.payLen < len ∨ l.payLen = 0) := by
+      obtain ⟨hk1, hk2, l, hl, hlt⟩ : kOk = .ret false ∧ kErr = .ret true ∧ ∃ l, la = some l ∧ (μ d' l.payLen < m ∨ l.payLen = 0) := by
         simpa [DBeh] using hD
       subst hk1 hk2
       have hlast := hla l hl
@@ -487,11 +500,11 @@ theorem step_empty (tab : Table) (rc : Bool) (p : Pkt) (d : DecId) (off : Nat)
     (hw : inputWin p = (off, 0)) : step tab rc ⟨p, some d⟩ = (⟨p, none⟩, false) := by
   simp [step, hw]
 
-/-- Centrepiece of C03: under D, the eager run of decoder `d` from packet `p` and forcing the
+/-- Centrepiece of C03: under the discipline, the eager run of decoder `d` from packet `p` and forcing the
     lazy packet `(p, next := d)` build the same packet — for every fuel that covers the input
     length (each chained decoder gets a strictly shorter, non-empty input). -/
-theorem eager_force_sim (tab : Table) (hD : D tab) : ∀ (fuelE fuelL : Nat) (d : DecId) (off len : Nat) (p : Pkt),
-    len ≠ 0 → inputWin p = (off, len) → len ≤ fuelE → len + 1 ≤ fuelL →
+theorem eager_force_sim (μ : Measure) (tab : Table) (hD : DM μ tab) : ∀ (fuelE fuelL : Nat) (d : DecId) (off len : Nat) (p : Pkt),
+    len ≠ 0 → inputWin p = (off, len) → μ d len + 1 ≤ fuelE → μ d len + 2 ≤ fuelL →
     ∃ p' out, eagerDec tab fuelE d off len p = some (p', out)
       ∧ force tab fuelL ⟨p, some d⟩ = some (finish p' out) := by
   intro fuelE
@@ -502,7 +515,7 @@ theorem eager_force_sim (tab : Table) (hD : D tab) : ∀ (fuelE fuelL : Nat) (d 
     obtain ⟨m, rfl⟩ : ∃ m, fuelL = m + 1 := ⟨fuelL - 1, by omega⟩
     rw [force_succ_of_some tab m ⟨p, some d⟩ d rfl]
     simp only [eagerDec]
-    rcases DBeh_sim (eagerDec tab n) len (tab d p.data off len) none p none (hD d p.data off len) (by intro l h; cases h) with
+    rcases DBeh_sim (eagerDec tab n) (μ d len) μ (tab d p.data off len) none p none (hD d p.data off len) (by intro l h; cases h) with
       ⟨p2, out, hl, he, ho⟩ | ⟨p2, d', l, hl, hlast, hlt, he⟩
     · refine ⟨p2, out, he, ?_⟩
       rcases ho with rfl | rfl | rfl
@@ -521,15 +534,15 @@ theorem eager_force_sim (tab : Table) (hD : D tab) : ∀ (fuelE fuelL : Nat) (d 
         exact ih m d' l.poff l.payLen p2 hz (inputWin_of_last p2 l hlast) (by omega) (by omega)
 
 /-- Termination of eager decoding under D, from any packet state (no assumption on `p`). -/
-theorem eagerDec_terminates (tab : Table) (hD : D tab) : ∀ (fuel : Nat) (d : DecId) (off len : Nat) (p : Pkt),
-    len + 1 ≤ fuel → ∃ r, eagerDec tab fuel d off len p = some r := by
+theorem eagerDec_terminates (μ : Measure) (tab : Table) (hD : DM μ tab) : ∀ (fuel : Nat) (d : DecId) (off len : Nat) (p : Pkt),
+    μ d len + 1 ≤ fuel → ∃ r, eagerDec tab fuel d off len p = some r := by
   intro fuel
   induction fuel with
   | zero => intro d off len p h; omega
   | succ n ih =>
     intro d off len p h
     simp only [eagerDec]
-    rcases DBeh_sim (eagerDec tab n) len (tab d p.data off len) none p none (hD d p.data off len) (by intro l h; cases h) with
+    rcases DBeh_sim (eagerDec tab n) (μ d len) μ (tab d p.data off len) none p none (hD d p.data off len) (by intro l h; cases h) with
       ⟨p2, out, _, he, _⟩ | ⟨p2, d', l, _, _, hlt, he⟩
     · exact ⟨_, he⟩
     · rw [he]
@@ -590,7 +603,7 @@ theorem LSpec.progress_sound (s : LSpec) (off len : Nat) (h : s.progress = true)
     · simp [h]
 
 theorem SBeh.disc_sound (off len : Nat) (s : SBeh) : ∀ (la : Option LSpec),
-    SBeh.disc la s = true → DBeh len (la.map (fun x => x.mk' off len)) (s.inst off len) := by
+    SBeh.disc la s = true → DBeh len lenMeasure (la.map (fun x => x.mk' off len)) (s.inst off len) := by
   induction s with
   | ret e => intro la _; simp [SBeh.inst, DBeh]
   | panic => intro la _; simp [SBeh.inst, DBeh]
@@ -634,6 +647,6 @@ theorem scriptTable_D (scripts : List SBeh) (h : ∀ s ∈ scripts, SBeh.disc no
   | none => simp [DBeh]
   | some s =>
     have := SBeh.disc_sound off len s none (h s (List.mem_of_getElem? hs))
-    simpa using this
+    simpa [lenMeasure] using this
 
 end Gp.Pkt
